@@ -158,6 +158,67 @@ pub fn tamper_case(ctx: &Ctx, cipher: u8, len: usize, seed: u64, positions: Opti
     out
 }
 
+/// datagrams an outsider can fabricate without any secret: sealed under guessable keys (all-zero, all-ones,
+/// repeated bytes, counting bytes) for every key id, both nonce halves and counters around the sender's
+pub fn forge_case(ctx: &Ctx, cipher: u8, rotations: u8) -> Vec<Viol> {
+    use ring::aead::{LessSafeKey, UnboundKey};
+    let mut out = vec![];
+    let al = algo(cipher);
+    let (mut a, mut b) = create_dummy_pair(al);
+    // a genuine datagram tells the outsider where the counters are
+    let genuine = seal(&mut a, b"genuine", 16);
+    let _ = open(&mut b, &genuine, 16);
+    for r in 0..rotations {
+        let kd: Vec<u8> = (0..al.key_len()).map(|i| (i as u8).wrapping_mul(29).wrapping_add(r * 7 + 3)).collect();
+        a.rotate_key(LessSafeKey::new(UnboundKey::new(al, &kd).unwrap()), r as u64 + 1, true);
+        b.rotate_key(LessSafeKey::new(UnboundKey::new(al, &kd).unwrap()), r as u64 + 1, false);
+    }
+    let mut ctr = [0u8; 8];
+    ctr[1..].copy_from_slice(&genuine[1..8]);
+    let base = u64::from_be_bytes(ctr);
+    let guesses: Vec<Vec<u8>> = vec![
+        vec![0u8; al.key_len()],
+        vec![0xffu8; al.key_len()],
+        vec![0x01u8; al.key_len()],
+        (0..al.key_len() as u8).collect(),
+        b"vpncloudVPNCLOUDvpncl0udVpnCloud"[..al.key_len()].to_vec(),
+    ];
+    for (gi, g) in guesses.iter().enumerate() {
+        let key = LessSafeKey::new(UnboundKey::new(al, g).unwrap());
+        for key_id in 0..4u8 {
+            for half in [0u8, 0x80] {
+                for delta in [1u64, 1000, 1 << 40] {
+                    ctx.eval();
+                    let c = (base.wrapping_add(delta)) & 0x00ff_ffff_ffff_ffff;
+                    let mut nonce = [0u8; 12];
+                    nonce[0] = half;
+                    nonce[5..].copy_from_slice(&c.to_be_bytes()[1..]);
+                    let mut body = vec![0u8; 1];
+                    body.extend_from_slice(b"forged payload");
+                    let tag = key
+                        .seal_in_place_separate_tag(ring::aead::Nonce::assume_unique_for_key(nonce), ring::aead::Aad::empty(), &mut body)
+                        .unwrap();
+                    let mut wire = vec![key_id];
+                    wire.extend_from_slice(&nonce[5..]);
+                    wire.extend_from_slice(&body);
+                    wire.extend_from_slice(tag.as_ref());
+                    for (end, core) in [("receiver", &mut b), ("sender", &mut a)] {
+                        if let Ok(Ok(_)) = open(core, &wire, 16) {
+                            out.push(Viol::new(
+                                "forged-datagram-under-guessable-key-accepted",
+                                format!("a datagram sealed by an outsider under guessable key #{} with key id {} and nonce half {:02x} opened at the {} ({} rotations)", gi, key_id, half, end, rotations),
+                                json!({"kind": "forge", "cipher": cipher, "rotations": rotations}),
+                            ));
+                        }
+                    }
+                    ctx.nontrivial(&("forge", cipher, rotations, gi, key_id, half, delta));
+                }
+            }
+        }
+    }
+    out
+}
+
 pub fn cross_case(ctx: &Ctx, cipher: u8, len: usize) -> Vec<Viol> {
     let mut out = vec![];
     let mut pairs: Vec<(CryptoCore, CryptoCore)> = (0..3).map(|_| create_dummy_pair(algo(cipher))).collect();
@@ -247,6 +308,14 @@ pub fn run(ctx: &Ctx) {
     }
     ctx.subspace("cross-connection: every ordered pair of 3 connections x both ends x 3 ciphers x 5 lengths", 3 * 5 * 6 * 2, true);
 
+    for cipher in 0..3 {
+        for rotations in [0u8, 1, 2, 5] {
+            let v = forge_case(ctx, cipher, rotations);
+            ctx.report(v);
+        }
+    }
+    ctx.subspace("outsider forgeries sealed under 5 guessable keys x 4 key ids x 2 nonce halves x 3 counters x both ends x 3 ciphers x {0,1,2,5} rotations", 3 * 4 * 5 * 4 * 2 * 3, true);
+
     crate::props::node_level::c02_node(ctx);
 }
 
@@ -257,6 +326,7 @@ pub fn replay(ctx: &Ctx, case: &Value) {
         Some("tamper") => tamper_case(ctx, g("cipher") as u8, g("len") as usize, g("seed"), Some(&[g("bit") as usize])),
         Some("truncate") => tamper_case(ctx, g("cipher") as u8, g("len") as usize, g("seed"), None),
         Some("cross") => cross_case(ctx, g("cipher") as u8, g("len") as usize),
+        Some("forge") => forge_case(ctx, g("cipher") as u8, g("rotations") as u8),
         Some(_) => {
             crate::props::node_level::replay(ctx, case);
             vec![]
